@@ -31,6 +31,7 @@ func init() {
 			// so the pages tx.write puts on disk must come from the allocator only (re-evaluation of C06.R1/R2)
 			c06R2(c, "C01.R9")
 			c06R1(c, "C01.R10")
+			ruleFreeSetEntry(c, "C01.R11") // after a crash in mid-commit the previous meta is the database: its pages must not have been recycled by the commit in flight
 		},
 		Platform: func(c *Ctx) {
 			ruleFdatasyncSibling(c, "C01.R3")
